@@ -80,7 +80,7 @@ CLAIMED = {
     ),
     "C02": dict(
         text="Coq theorems on byte-exact models of the batch codec, the manifest record codec, the write-ahead log, recovery and the persistence protocol: for every run of the protocol model, every crash point and every tear length the recovered contents are exactly the acknowledged batches (plus the in-flight one when its record is complete) and recovery never fails (C02_crash_safe_with_installs, C02_crash_recovery_succeeds); decode(encode x) = x for varints, slices, batches and version changes; for every sequence of writer sessions and EVERY byte length n at which the log is cut, recovery returns exactly a prefix of the appended batches, batch j being recovered iff its record ends at or before n (wal_crash_atomic: batches are all-or-nothing and acknowledged = fully written batches survive), the replayed map and the recovered last sequence number follow. Recovery itself is a Coq function of the directory image (Recover.recover_image: CURRENT, manifest records, version, logs replayed in order) and the whole persistence protocol is a Coq state machine that emits file operations (Proto.v: open/recover, write, rotate, flush, install, garbage collection). Tied to the code by crash images taken at every filesystem operation (including a torn last write) of real executions on SimFs, recovered by the real DB::open and judged against the extracted specification; every such image is also recovered by the extracted recover_image and compared with DB::open (result, last sequence, contents); after every operation of random histories the complete directory (CURRENT, logs byte for byte, manifests record by record, tables entry by entry) is compared with the directory Proto.p_run derives; plus byte-exact differential execution of the codecs.",
-        note="The crash-safety theorem of the protocol model is proved for every run of open / write / rotate / flush / install / reopen from a cleanly closed directory, every crash point and every tear length (C02_crash_safe_with_installs); reopening FROM a crash image and continuing (nested crashes) is proved step-wise only where noted in DESIGN 0.8 and is otherwise covered by the crash suite (post-recovery writes, second reopen, nested crash points). fsync is not modelled because the code never calls it (every completed write is assumed durable).",
+        note="The crash-safety theorem of the protocol model is proved for every run of open / write / rotate / flush / install / reopen from a cleanly closed directory, every crash point and every tear length (C02_crash_safe_with_installs); recovery FROM any crash image re-establishes the invariant (C02_open_step_crashed), so histories of sessions that each end in a crash anywhere (torn tails, crashes during recovery itself) or cleanly are covered (C02_history_safe_from_empty). fsync is not modelled because the code never calls it (every completed write is assumed durable).",
         design="6 / C02",
         technique="machine-checked proof in Coq (induction over writer sessions and block arithmetic; codec round trips) + checked model-code correspondence on crash images",
     ),
@@ -91,8 +91,8 @@ CLAIMED = {
         technique="machine-checked proof in Coq (GF(2)-linearity of CRC32C, layout induction) + checked model-code correspondence on corrupted files",
     ),
     "C16": dict(
-        text="Coq theorems: a log cut at any byte (torn tail) followed by a NEW log file recovers exactly the batches whose records were complete in the first file followed by all batches of the second (wal_torn_then_new_log, with the cut characterised by record end offsets); appending to a log after a torn tail is refuted in the model (the appended record is lost), which is the repaired defect D2. Tied to the code by crash images with a torn last write (1 byte, half, all but one) of WAL and manifest appends, recovery, further writes and another reopen, with both log-reuse settings.",
-        note="The manifest's torn tail is covered by the correspondence (crash suite) and by the log-level theorem, not by a database-level theorem.",
+        text="Coq theorems: for every history of sessions of the persistence-protocol model, each ending in a crash at any file operation with the last append torn at any byte (or cleanly) and the next one recovering from that image, the database opens and holds exactly the acknowledged batches, including those acknowledged after a recovery (C16_history_safe_from_empty, C16_writes_after_recovery_survive); a log cut at any byte (torn tail) followed by a NEW log file recovers exactly the batches whose records were complete in the first file followed by all batches of the second (wal_torn_then_new_log, with the cut characterised by record end offsets); appending to a log after a torn tail is refuted in the model (the appended record is lost), which is the repaired defect D2. Tied to the code by crash images with a torn last write (1 byte, half, all but one) of WAL and manifest appends, recovery, further writes and another reopen, with both log-reuse settings.",
+        note="Database-level theorems on the protocol model: every byte prefix of a manifest or log reads back a prefix of its records with no record counted as corrupted and is reported intact only if it is a well-formed log (so it is reused only then); every crash image (any tear length) recovers; C16_writes_after_recovery_survive: writes acknowledged after recovering from a torn tail are present after the next crash or clean reopen, for either log-reuse setting. Tied to the code as described in the claim.",
         design="6 / C16",
         technique="machine-checked proof in Coq + checked model-code correspondence on torn crash images",
     ),
